@@ -1339,7 +1339,12 @@ def proximal_l1(space, lam=1, g=None):
             # We write the operator as
             # x - (x - g) / max(|x - g| / sig*lam, 1)
             denom = diff.ufuncs.absolute()
-            denom /= self.sigma * lam
+            sigma = self.sigma
+            if not np.isscalar(sigma) and sigma not in denom.space:
+                # For complex tensor spaces `|x - g|` lies in the real
+                # space; the (real-valued) step size has to follow
+                sigma = sigma.real
+            denom /= sigma * lam
             denom.ufuncs.maximum(1, out=denom)
 
             # out = (x - g) / denom
